@@ -36,6 +36,9 @@ func (c *child) canonical(kind string) {
 		c.canonStale()
 	case "canon-emu-rehome", "canon-dma-rehome", "canon-tmagic-rehome":
 		c.canonRehome()
+	case "canon-emu-freealloc", "canon-dma-freealloc", "canon-tmagic-freealloc",
+		"canon-emu-freealloc-buddy", "canon-dma-freealloc-buddy", "canon-tmagic-freealloc-buddy":
+		c.canonFreeAlloc()
 	default:
 		c.rec.Inconclusive("unknown canonical case " + kind)
 	}
